@@ -46,7 +46,9 @@ theorem toStr_tlv (t : Nat) (v : Bytes) (ht : t < 2^64) (hv : v.length < 2^64) :
       if t = 1 then .ok ("sha256digest=".toList ++ pyHex v)
       else if t = 2 then .ok ("params-sha256=".toList ++ pyHex v)
       else match altUriOfType t with
-        | some s => .ok (s ++ '=' :: toDec (beVal v))
+        | some s =>
+          if v.length = 1 ∨ v.length = 2 ∨ v.length = 4 ∨ v.length = 8 then .ok (s ++ '=' :: toDec (beVal v))
+          else .ok (typePrefix t ++ escBytes v)
         | none => .ok (typePrefix t ++ escBytes v) := by
   simp only [toStr, parseComp_tlv t v ht hv, bind, Except.bind, pure, Except.pure,
     TYPE_IMPLICIT_SHA256, TYPE_PARAMETERS_SHA256]
@@ -117,6 +119,11 @@ theorem beVal_packUint (n : Nat) (h : n < 2^64) : beVal (packUint n) = n := by
       · exact beVal_be4 n (by omega)
       · exact beVal_be8 n (by omega)
 
+theorem packUint_len1248 (n : Nat) :
+    (packUint n).length = 1 ∨ (packUint n).length = 2 ∨ (packUint n).length = 4 ∨ (packUint n).length = 8 := by
+  unfold packUint; repeat' split
+  all_goals simp [be1, be2, be4, be8]
+
 /-- typed-number components carry a canonically encoded (minimal 1/2/4/8-byte) number -/
 def CanonNumber (t : Nat) (v : Bytes) : Prop := IsNumType t → ∃ n, n < 2^64 ∧ v = packUint n
 
@@ -179,6 +186,7 @@ theorem toStr_spec (t : Nat) (v : Bytes) (ht1 : 1 ≤ t) (ht2 : t ≤ 65535) (hv
       · obtain ⟨s, hs1, hs2, hs3, hs4, hs5, hs6⟩ := altUriOfType_some t hn
         obtain ⟨n, hn1, rfl⟩ := hcn hn
         rw [hs1]
+        simp only [if_pos (packUint_len1248 n)]
         refine ⟨_, rfl, ?_, ?_, by simp⟩
         · intro c hc
           simp at hc
